@@ -29,7 +29,7 @@ Section Debt.
   Definition VI2 (k : key) (v : value) : Prop :=
     match k, v with
     | KBlock c, VBlock b => I_b b /\ bk_cidr b = c /\ length (bk_allocs b) = bs
-    | KHandle _, VHandle m => hsorted m
+    | KHandle _, VHandle m => hgood m
     | KAff _ _, _ => True
     | _, _ => False
     end.
@@ -39,7 +39,7 @@ Section Debt.
     | KBlock _ => match v0, v with
                   | VBlock b0, VBlock b1 => btrans b0 b1 /\ length (bk_allocs b1) = length (bk_allocs b0)
                   | _, _ => False end
-    | KHandle _ => match v with VHandle m => hsorted m | _ => False end
+    | KHandle _ => match v with VHandle m => hgood m | _ => False end
     | KAff _ _ => True
     end.
   Definition delete_ok2 (k : key) (v : value) : Prop := True.
@@ -191,7 +191,7 @@ Section DebtProgs.
   Proof. intros E (A & B). split; auto. Qed.
 
   Definition knownh (H : hist) (h : N) (m : list (N * N)) (rev : N) : Prop :=
-    H rev = Some (KHandle h, VHandle m) /\ hsorted m.
+    H rev = Some (KHandle h, VHandle m) /\ hgood m.
   Lemma knownh_mono H H' h m rev : hext H H' -> knownh H h m rev -> knownh H' h m rev.
   Proof. intros E (A & B). split; auto. Qed.
 
@@ -286,7 +286,7 @@ Section DebtProgs.
   Qed.
 
   Lemma d_update_handle nb d d1 H h m0 m rev :
-    knownh H h m0 rev -> hsorted m -> hdelta h m0 m d d1 ->
+    knownh H h m0 rev -> hgood m -> hdelta h m0 m d d1 ->
     sD nb d H (update_handle h m rev)
        (fun nb' d' _ r => match r with
                         | inl _ => d' = d1
@@ -301,7 +301,7 @@ Section DebtProgs.
   Qed.
 
   Lemma d_create_handle nb d d1 H h m :
-    hsorted m -> hdelta h [] m d d1 ->
+    hgood m -> hdelta h [] m d d1 ->
     sD nb d H (create_handle h m) (fun _ d' _ r => match r with inl _ => d' = d1 | inr _ => d' = d end).
   Proof.
     intros SM HD. apply safeD_act; [exact SM|].
@@ -340,19 +340,27 @@ Section DebtProgs.
     - intros h' c' NE. unfold dadd. destruct (N.eqb h' h) eqn:E; auto. apply N.eqb_eq in E; congruence.
   Qed.
 
-  Lemma d_inc_handle fuel : forall nb d H h c n,
+  Lemma hgood_hinc m c n : hgood m \/ m = [] -> (0 < n)%N -> hgood (hinc m c n).
+  Proof.
+    intros G PN.
+    assert (SP : hsorted m /\ hpos m) by (destruct G as [(A & B & _)| ->]; [auto | split; [exact I | constructor]]).
+    destruct SP as [SM PM]. destruct (hinc_spec m c n SM) as [S' _]. destruct (hinc_pos m c n PM PN) as [P' NE].
+    split; auto.
+  Qed.
+
+  Lemma d_inc_handle fuel : forall nb d H h c n, (0 < n)%N ->
     sD nb d H (inc_handle fuel h c n)
        (fun _ d' _ r => match r with inl _ => d' = dadd d h c n | inr _ => d' = d end).
   Proof.
-    induction fuel as [|f IH]; intros nb d H h c n; simpl; [reflexivity|].
+    induction fuel as [|f IH]; intros nb d H h c n PN; simpl; [reflexivity|].
     dsb d_get_handle. destruct P as [-> P]. destruct r as [[m rev]|e].
-    - destruct P as [KH _]. destruct (hinc_spec m c n (proj2 KH)) as [SM HC].
-      dsb d_update_handle; [exact KH | exact SM | apply dadd_hdelta; exact HC |].
-      destruct r as [u|e]; [dret|]. destruct P as [-> _]. apply IH.
+    - destruct P as [KH _]. destruct (hinc_spec m c n (proj1 (proj2 KH))) as [SM HC].
+      dsb d_update_handle; [exact KH | apply hgood_hinc; [left; exact (proj2 KH) | exact PN] | apply dadd_hdelta; exact HC |].
+      destruct r as [u|e]; [dret|]. destruct P as [-> _]. apply IH; exact PN.
     - destruct e; try dret.
       destruct (hinc_spec [] c n I) as [SM HC].
-      dsb d_create_handle; [exact SM | apply dadd_hdelta; exact HC |].
-      destruct r as [u|e]; [dret|]. subst. apply IH.
+      dsb d_create_handle; [apply (hgood_hinc [] c n); [right; reflexivity | exact PN] | apply dadd_hdelta; exact HC |].
+      destruct r as [u|e]; [dret|]. subst. apply IH; exact PN.
   Qed.
 
   Lemma d_dec_handle fuel : forall nb d d0 H h c n cached,
@@ -400,7 +408,7 @@ Section DebtProgs.
     { intros nb1 H1 m rev LE1 E1 KH B1 NONE.
       destruct (hdec m c n) as [m'|] eqn:HD.
       - pose proof (hdec_Some_ge _ _ _ _ HD) as GE.
-        destruct (hdec_spec m c n (proj2 KH) POS GE) as (m2 & HD2 & SM & HC). rewrite HD in HD2. inversion HD2; subst m2.
+        destruct (hdec_spec m c n (proj1 (proj2 KH)) POS GE) as (m2 & HD2 & SM & HC). rewrite HD in HD2. inversion HD2; subst m2.
         assert (RETRY : forall nb2 H2, (nb2 < nb1)%nat -> sD nb2 d H2 (dec_handle false f h c n None) (fun _ d' _ r => d' = d0 /\ r = inl tt)).
         { intros nb2 H2 L2. apply IH; auto. lia. }
         destruct m' as [|x m''].
@@ -408,7 +416,7 @@ Section DebtProgs.
           destruct r as [u|e]; [dret|]. destruct P as [-> [[-> LT]|Z]].
           * apply RETRY. exact LT.
           * exfalso. specialize (Z c). lia.
-        + dsb d_update_handle; [exact KH | exact SM | apply HDEL; auto |].
+        + dsb d_update_handle; [exact KH | split; [exact SM | split; [exact (hdec_pos _ _ _ _ (proj1 (proj2 (proj2 KH))) HD) | discriminate]] | apply HDEL; auto |].
           destruct r as [u|e]; [dret|]. destruct P as [-> [[-> LT]|Z]].
           * apply RETRY. exact LT.
           * exfalso. specialize (Z c). lia.
@@ -423,7 +431,7 @@ Section DebtProgs.
     - dsb d_get_handle. destruct P as [-> P]. destruct r as [[m rev]|e].
       + destruct P as [KH LEQ]. apply TRY; auto; try lia.
         intros HN. exfalso. specialize (LEQ c).
-        destruct (hdec_spec m c n (proj2 KH) POS) as (m2 & HD2 & _); [lia|]. congruence.
+        destruct (hdec_spec m c n (proj1 (proj2 KH)) POS) as (m2 & HD2 & _); [lia|]. congruence.
       + exfalso. specialize (P c). lia.
   Qed.
 
@@ -445,7 +453,7 @@ Section DebtProgs.
     destruct KN as (KH & IB & CB & LB).
     destruct (blk_auto_assign_trans _ _ _ _ _ _ _ _ AA) as [BT _].
     pose proof (blk_auto_assign_len _ _ _ _ _ _ _ _ AA) as LEN.
-    dsb d_inc_handle. destruct r as [u|e]; [|subst; dret]. subst d0.
+    dsb d_inc_handle; [exact POS|]. destruct r as [u|e]; [|subst; dret]. subst d0.
     assert (KN0 : known2 H0 c b rev) by (split; auto).
     assert (BD : bdelta c (count_in_block b) (count_in_block b') (dadd d h c n) d).
     { split.
@@ -678,7 +686,7 @@ Section DebtProgs.
       destruct KN as (KH & IB & CB & LB).
       assert (BT : btrans b b') by (destruct (blk_assign_trans _ _ _ _ _ _ _ BA) as [[X _]|[X _]]; exact X).
       destruct (blk_assign_count _ _ _ _ _ _ _ h BA IB (ordinal_in_block b a CB LB)) as [LEN _].
-      dsb d_inc_handle. destruct r as [u|e]; [|subst; dret]. subst d0.
+      dsb d_inc_handle; [lia|]. destruct r as [u|e]; [|subst; dret]. subst d0.
       assert (KN0 : known2 H0 c b brev) by (split; auto).
       assert (BD : bdelta c (count_in_block b) (count_in_block b') (dadd d h c 1) d).
       { split.
@@ -905,19 +913,19 @@ Section DebtProgs.
 
   (* every operation of the fixed code gives the debt back *)
   (* ---------------------------------------------------------------- MaxAllocToHandlePerIPVersion (ModelV.v, OpsM) *)
-  Lemma d_inc_handle_m fuel : forall nb d H h c n ma,
+  Lemma d_inc_handle_m fuel : forall nb d H h c n ma, (0 < n)%N ->
     sD nb d H (inc_handle_m fuel h c n ma)
        (fun _ d' _ r => match r with IOk => d' = dadd d h c n | _ => d' = d end).
   Proof.
-    induction fuel as [|f IH]; intros nb d H h c n ma; simpl; [reflexivity|].
+    induction fuel as [|f IH]; intros nb d H h c n ma PN; simpl; [reflexivity|].
     dsb d_get_handle. destruct P as [-> P]. destruct r as [[m rev]|e].
-    - dif; [dret|]. destruct P as [KH _]. destruct (hinc_spec m c n (proj2 KH)) as [SM HC].
-      dsb d_update_handle; [exact KH | exact SM | apply dadd_hdelta; exact HC |].
-      destruct r as [u|e]; [dret|]. destruct P as [-> _]. apply IH.
+    - dif; [dret|]. destruct P as [KH _]. destruct (hinc_spec m c n (proj1 (proj2 KH))) as [SM HC].
+      dsb d_update_handle; [exact KH | apply hgood_hinc; [left; exact (proj2 KH) | exact PN] | apply dadd_hdelta; exact HC |].
+      destruct r as [u|e]; [dret|]. destruct P as [-> _]. apply IH; exact PN.
     - destruct e; try dret. dif; [dret|].
       destruct (hinc_spec [] c n I) as [SM HC].
-      dsb d_create_handle; [exact SM | apply dadd_hdelta; exact HC |].
-      destruct r as [u|e]; [dret|]. subst. apply IH.
+      dsb d_create_handle; [apply (hgood_hinc [] c n); [right; reflexivity | exact PN] | apply dadd_hdelta; exact HC |].
+      destruct r as [u|e]; [dret|]. subst. apply IH; exact PN.
   Qed.
 
   Lemma d_ibh_blocks cs : forall nb d H h acc, sD nb d H (ibh_blocks cs h acc) (Peq d Tr).
@@ -948,7 +956,7 @@ Section DebtProgs.
     destruct KN as (KH & IB & CB & LB).
     destruct (blk_auto_assign_trans _ _ _ _ _ _ _ _ AA) as [BT _].
     pose proof (blk_auto_assign_len _ _ _ _ _ _ _ _ AA) as LEN.
-    dsb d_inc_handle_m. destruct r as [|e|]; [|subst; dret|subst; dret]. subst d0.
+    dsb d_inc_handle_m; [exact POS|]. destruct r as [|e|]; [|subst; dret|subst; dret]. subst d0.
     assert (KN0 : known2 H0 c b rev) by (split; auto).
     assert (BD : bdelta c (count_in_block b) (count_in_block b') (dadd d h c n) d).
     { split.
@@ -1052,7 +1060,7 @@ Section DebtProgs.
       destruct KN as (KH & IB & CB & LB).
       assert (BT : btrans b b') by (destruct (blk_assign_trans _ _ _ _ _ _ _ BA) as [[X _]|[X _]]; exact X).
       destruct (blk_assign_count _ _ _ _ _ _ _ h BA IB (ordinal_in_block b a CB LB)) as [LEN _].
-      dsb d_inc_handle_m. destruct r as [|e|].
+      dsb d_inc_handle_m; [lia|]. destruct r as [|e|].
       - subst d0.
         assert (KN0 : known2 H0 c b brev) by (split; auto).
         assert (BD : bdelta c (count_in_block b) (count_in_block b') (dadd d h c 1) d).
@@ -1145,12 +1153,12 @@ Section DebtProgs.
     { intros nb1 H1 m rev KH.
       destruct (hdec m c n) as [m'|] eqn:HD.
       - pose proof (hdec_Some_ge _ _ _ _ HD) as GE.
-        destruct (hdec_spec m c n (proj2 KH) POS GE) as (m2 & HD2 & SM & HC). rewrite HD in HD2. inversion HD2; subst m2.
+        destruct (hdec_spec m c n (proj1 (proj2 KH)) POS GE) as (m2 & HD2 & SM & HC). rewrite HD in HD2. inversion HD2; subst m2.
         destruct m' as [|x m''].
         + dsb d_delete_handle; [exact KH | apply HDEL; auto |].
           destruct r as [u|e]; [subst; apply DONE|]. destruct P as [-> _].
           destruct e; try apply SAME. apply IH; auto.
-        + dsb d_update_handle; [exact KH | exact SM | apply HDEL; auto |].
+        + dsb d_update_handle; [exact KH | split; [exact SM | split; [exact (hdec_pos _ _ _ _ (proj1 (proj2 (proj2 KH))) HD) | discriminate]] | apply HDEL; auto |].
           destruct r as [u|e]; [subst; apply DONE|]. destruct P as [-> _].
           destruct e; try apply SAME. apply IH; auto.
       - destruct cached; [apply IH; auto | apply SAME]. }
@@ -1174,7 +1182,7 @@ Section DebtProgs.
     destruct KN as (KH & IB & CB & LB).
     destruct (blk_auto_assign_trans _ _ _ _ _ _ _ _ AA) as [BT _].
     pose proof (blk_auto_assign_len _ _ _ _ _ _ _ _ AA) as LEN.
-    dsb d_inc_handle. destruct r as [u|e]; [|apply safeD_ret; exact I]. subst d0.
+    dsb d_inc_handle; [exact POS|]. destruct r as [u|e]; [|apply safeD_ret; exact I]. subst d0.
     assert (KN0 : known2 H0 c b rev) by (split; auto).
     assert (BD : bdelta c (count_in_block b) (count_in_block b') (dadd d h c n) d).
     { split.
@@ -1259,7 +1267,7 @@ Section DebtProgs.
       destruct KN as (KH & IB & CB & LB).
       assert (BT : btrans b b') by (destruct (blk_assign_trans _ _ _ _ _ _ _ BA) as [[X _]|[X _]]; exact X).
       destruct (blk_assign_count _ _ _ _ _ _ _ h BA IB (ordinal_in_block b a CB LB)) as [LEN _].
-      dsb d_inc_handle. destruct r as [u|e]; [|uret]. subst d0.
+      dsb d_inc_handle; [lia|]. destruct r as [u|e]; [|uret]. subst d0.
       assert (KN0 : known2 H0 c b brev) by (split; auto).
       assert (BD : bdelta c (count_in_block b) (count_in_block b') (dadd d1 h c 1) d1).
       { split.
@@ -1408,7 +1416,7 @@ Section DebtProgs.
     destruct KN as (KH & IB & CB & LB).
     destruct (blk_auto_assign_trans _ _ _ _ _ _ _ _ AA) as [BT _].
     pose proof (blk_auto_assign_len _ _ _ _ _ _ _ _ AA) as LEN.
-    dsb d_inc_handle_m. destruct r as [|e|]; [|uret|uret]. subst d0.
+    dsb d_inc_handle_m; [exact POS|]. destruct r as [|e|]; [|uret|uret]. subst d0.
     assert (KN0 : known2 H0 c b rev) by (split; auto).
     assert (BD : bdelta c (count_in_block b) (count_in_block b') (dadd d h c n) d).
     { split.
@@ -1509,7 +1517,7 @@ Section DebtProgs.
       destruct KN as (KH & IB & CB & LB).
       assert (BT : btrans b b') by (destruct (blk_assign_trans _ _ _ _ _ _ _ BA) as [[X _]|[X _]]; exact X).
       destruct (blk_assign_count _ _ _ _ _ _ _ h BA IB (ordinal_in_block b a CB LB)) as [LEN _].
-      dsb d_inc_handle_m. destruct r as [|e|].
+      dsb d_inc_handle_m; [lia|]. destruct r as [|e|].
       - subst d0.
         assert (KN0 : known2 H0 c b brev) by (split; auto).
         assert (BD : bdelta c (count_in_block b) (count_in_block b') (dadd d1 h c 1) d1).
